@@ -103,12 +103,12 @@ def position_invariant(ctx, F):
                 ok = all(n in g for n in need)
             else:
                 # assert!(..) expands to `if !cond { panic }` before the constructor
-                ok = any(("!" + (want_guard % (a0, a1)), False) == x for x in g)
+                # assert!(c) is `if !c { panic }`: an early-exit guard, i.e. c holds afterwards
+                ok = any(((want_guard % (a0, a1)), True) == x for x in g)
                 if not ok:
-                    # dev/rel: the assert is an `if !(..) {panic}` statement: early-exit guard with polarity False on the negation
-                    txt = [x[0] for x in g if x[1] is False]
-                    ok = any(t.startswith("!(") and "contains(ops::Range{end: 8, start: 0}, %s)" % a0 in t and
-                             "contains(ops::Range{end: 8, start: 0}, %s)" % a1 in t for t in txt)
+                    txt = [x[0] for x in g if x[1] is True]
+                    ok = any("contains(ops::Range{end: 8, start: 0}, %s)" % a0 in t and
+                             "contains(ops::Range{end: 8, start: 0}, %s)" % a1 in t and "||" not in t for t in txt)
         ctx.check("C15.INV", "checked-constructor:%s" % name, ok, fn=fn["path"], file=fn["file"], line=fn["span"][0],
                   what="Position::%s builds a Position without having established both components in 0..8" % name,
                   expected="(0..8).contains(row) && (0..8).contains(col) on the path to the constructor", found=found)
